@@ -28,8 +28,20 @@ pub fn config(c: &Case14) -> Config {
     let mut e = ElH { selector: "*".into(), element: true, text: false, comments: false, end_tag: true, ..Default::default() };
     let mut d = DocH { doctype: true, comments: true, text: true, end: true, ..Default::default() };
     if c.rewriting {
-        e.always_el = vec![Op::Before(Content::html("<!--ins @@-->")), Op::SetAttr("data-rw".into(), "1".into()), Op::Append(Content::text("<appended & more>"))];
-        d.always_comment = vec![Op::After(Content::html("<b>after comment</b>"))];
+        // several modifications of one token (locations are read again after them by the engine's monitor): a new
+        // attribute set twice, attributes that often exist in the source, a removal, and an end-tag rename
+        e.always_el = vec![
+            Op::Before(Content::html("<!--ins @@-->")),
+            Op::SetAttr("data-rw".into(), "1".into()),
+            Op::SetAttr("data-rw".into(), "2".into()),
+            Op::SetAttr("class".into(), "k".into()),
+            Op::SetAttr("A".into(), "z".into()),
+            Op::RemoveAttr("id".into()),
+            Op::Append(Content::text("<appended & more>")),
+            Op::OnEndTag(vec![Op::Before(Content::html("<!--e-->")), Op::SetTagName("renamed".into()), Op::SetTagName("renamed2".into())]),
+        ];
+        e.end_tag = false;
+        d.always_comment = vec![Op::After(Content::html("<b>after comment</b>")), Op::SetText("one".into()), Op::SetText("two".into())];
         d.always_text = vec![Op::Before(Content::text("[t]"))];
     }
     Config { encoding: c.encoding.clone(), esi: c.esi, el: vec![e], doc: vec![d], ..Default::default() }
@@ -75,6 +87,9 @@ pub fn check_truth(c: &Case14, doc: &Doc) -> Result<Obs, (String, String)> {
     let mut last_end = 0usize;
     for rec in &r.log {
         match rec {
+            Rec::LocChanged { what, before, after } => {
+                return Err(("location-changes-under-mutation".into(), ctx(format!("{what}: {before:?} vs {after:?} (source locations refer to the original input and do not move when the token is edited; set attributes report None)"))));
+            }
             Rec::El(e) => {
                 let Some(&ni) = exp_el.get(el_i) else {
                     return Err(("unexpected-element".into(), ctx(format!("element event at {}..{} beyond the last start tag", e.start, e.end))));
@@ -198,6 +213,9 @@ pub fn check_soup(c: &Case14, input: &[u8]) -> Result<Obs, (String, String)> {
     let mut text_end: Option<usize> = None;
     for rec in &r.log {
         let (s, e, tag, is_text, last) = match rec {
+            Rec::LocChanged { what, before, after } => {
+                return Err(("location-changes-under-mutation".into(), ctx(format!("{what}: {before:?} vs {after:?} (source locations refer to the original input and do not move when the token is edited; set attributes report None)"))));
+            }
             Rec::El(x) => (x.start, x.end, true, false, false),
             Rec::Comment { start, end, .. } => (*start, *end, false, false, false),
             Rec::Doctype { start, end, .. } => (*start, *end, false, false, false),
@@ -247,7 +265,7 @@ impl Prop for C14 {
         "C14"
     }
     fn rule(&self) -> String {
-        "generated documents with ground-truth byte ranges (re-encoded token by token into any of the 36 encodings) x write schedules x handler sets that only observe or that also rewrite earlier content: every element / end tag / comment / doctype location and every attribute name / value location is compared with the ground truth (RefAttr for attributes), text chunk ranges must be contiguous, inside their node and cover it, successive tokens never overlap or go backwards; plus a self-consistency monitor on tag soup; non-trivial: a token that started in an earlier write than it ended (or text split by a write) was checked; distinct = hash(document, encoding, schedule, handler set)".into()
+        "generated documents with ground-truth byte ranges (re-encoded token by token into any of the 36 encodings) x write schedules x handler sets that only observe or that also rewrite earlier content: every element / end tag / comment / doctype location and every attribute name / value location is compared with the ground truth (RefAttr for attributes), text chunk ranges must be contiguous, inside their node and cover it, successive tokens never overlap or go backwards; in the rewriting handler sets every token is modified several times and its locations (incl. attribute name / value locations: unchanged when untouched, None once set) are read again afterwards; plus a self-consistency monitor on tag soup; non-trivial: a token that started in an earlier write than it ended (or text split by a write) was checked; distinct = hash(document, encoding, schedule, handler set)".into()
     }
     fn run_shard(&self, ctx: &mut Ctx<'_>) {
         let n = ctx.budget(150_000, 4_000_000);
